@@ -461,6 +461,10 @@ type AllocateOptions struct {
 
 // AllocateWithOptions allocates a prefix with additional options for DHCPv6.
 func (p *PoolAllocator) AllocateWithOptions(ctx context.Context, opts AllocateOptions) (*net.IPNet, error) {
+	// A subscriber that already holds an allocation gets the same prefix back;
+	// if re-saving it fails, that allocation must not be rolled back.
+	existed := p.allocator.Lookup(opts.SubscriberID) != nil
+
 	prefix, err := p.allocator.Allocate(opts.SubscriberID)
 	if err != nil {
 		return nil, err
@@ -479,8 +483,10 @@ func (p *PoolAllocator) AllocateWithOptions(ctx context.Context, opts AllocateOp
 	}
 
 	if err := p.store.SaveAllocation(ctx, record); err != nil {
-		// Rollback allocator state
-		p.allocator.Release(opts.SubscriberID)
+		// Rollback allocator state (only if this call created the allocation)
+		if !existed {
+			p.allocator.Release(opts.SubscriberID)
+		}
 		return nil, fmt.Errorf("failed to persist allocation: %w", err)
 	}
 
